@@ -46,6 +46,10 @@ func (env *Env) evalLoc(e *E) Loc {
 				return Loc{Kind: "map", Base: env.term(m), MapT: m.T.Underlying().(*types.Map)}
 			case "closed":
 				return Loc{Kind: "chan", Base: env.term(env.eval(e.Args[1]))}
+			case "calls":
+				return Loc{Kind: "fncalls", Base: env.term(env.eval(e.Args[1]))}
+			case "armed":
+				return Loc{Kind: "timer", Base: env.term(env.eval(e.Args[1]))}
 			case "deref":
 				p := env.eval(e.Args[1])
 				pv, ok := p.V.(PtrV)
@@ -178,6 +182,10 @@ func (env *Env) locTargets(l Loc) []heapTarget {
 			heapTarget{vn, SArray(sortOf(l.MapT.Key()), sortOf(l.MapT.Elem())), l.Base})
 	case "chan":
 		out = append(out, heapTarget{"|Chan:closed|", SBool, l.Base})
+	case "fncalls":
+		out = append(out, heapTarget{"|Fn:calls|", SBV(64), l.Base}, heapTarget{"|Fn:lastarg|", SIface, l.Base})
+	case "timer":
+		out = append(out, heapTarget{"|Timer:armed|", SBool, l.Base})
 	}
 	return out
 }
